@@ -58,8 +58,10 @@ SEM_RULE = ("records = ADFs as presented to the library (all 4 one-statement and
 
 def _compose_mc(tier, res, quick=("b", "e")):
     # the composition theorem behind the judgement of the large (composed) frameworks, against the direct definitions
-    for shape in (list(quick) if tier != "thorough" else ["a", "b", "e", "c", "d"]):
-        res.add_mc(require_mc(tlc_mc("MC_Compose", "MC_Compose_%s.cfg" % shape, workers=8 if tier != "thorough" else 14, timeout=3000)))
+    # shapes c and d (four statements, 65 536 + frameworks each) need more than an hour on this machine: their configurations are kept for
+    # one-off runs (DESIGN 12.1), the tiers use the three-statement shapes
+    for shape in (list(quick) if tier != "thorough" else ["a", "b", "e"]):
+        res.add_mc(require_mc(tlc_mc("MC_Compose", "MC_Compose_%s.cfg" % shape, workers=8, timeout=3000)))
 
 
 def _sem_mc(prop, tier, res):
@@ -134,7 +136,11 @@ def check_sem(prop, tier, replay, selftest, mc=_sem_mc):
     res.distinct = nontriv
     res.rule = SEM_RULE
     for line in tr["lines"][-3:]:
-        if '"kind":"stat"' in line:
+        if '"kind":"stat"' in line and '"id":"xprefilter"' in line:
+            st = json.loads(line)
+            res.extra["backend_differential_prefilter"] = {"adfs_run_through_every_backend_and_variant_of_this_semantics": st["prefilter_adfs"], "disagreements_recorded_and_judged_by_TLC": st["flagged"],
+                                                           "note": "agreement is not evidence and is not counted as validated; the filter only widens the search for inputs worth recording"}
+        elif '"kind":"stat"' in line:
             st = json.loads(line)
             res.extra["differential_prefilter"] = {"adfs_run_through_both_counting_searches_and_plain_stable": st["prefilter_adfs"], "disagreements_recorded_and_judged_by_TLC": st["flagged"],
                                                    "note": "agreement is not evidence and is not counted as validated; the filter only widens the search for inputs worth recording"}
